@@ -131,6 +131,14 @@ pub fn module_text(mods: &[Mod], i: usize) -> String {
     s += &format!("U{x} ::= SEQUENCE {{ u1 BOOLEAN, u2 INTEGER }}\n");
     s += &format!("K{x} ::= [7] CHOICE {{ k NULL, l BOOLEAN }}\n");
     s += &format!("W{x} ::= SET {{ w1 NULL, n CHOICE {{ n1 [1] NULL, n2 [2] BOOLEAN }} }}\n");
+    // module-qualified references that may close a type cycle across modules (the reference is then boxed and must
+    // keep its module path)
+    if m.qualified {
+        match m.imports.first() {
+            Some(j) => s += &format!("R{x} ::= SEQUENCE {{ back [0] {y}.R{y} OPTIONAL, n [1] NULL }}\n", y = mods[*j].name),
+            None => s += &format!("R{x} ::= SEQUENCE {{ n [1] NULL }}\n"),
+        }
+    }
     s += &format!("{} ::= SEQUENCE {{ t [5] BOOLEAN }}\n", ty_name(x));
     s += &format!("{} INTEGER ::= 7\n", val_name(x));
     s += "END\n";
@@ -209,7 +217,7 @@ impl Prop for C12 {
         "C12"
     }
     fn rule(&self) -> String {
-        "module sets of 2 modules (all 8×8 tagging×extensibility default assignments × all 4 import digraphs) and of 3 modules (pairwise-distinct defaults from a 4-palette × all 64 import digraphs, cyclic included; thorough also 4 modules on a ring/star/complete graph); every module has a tagged SEQUENCE, CHOICE, ENUMERATED, a type and a value, and uses each imported type as component type and each imported value as constraint endpoint; for every set: every non-empty subset closed under `imports from`, in every order, handed to one Compiler as one literal per module (and once as a single concatenated literal), with and without default_wildcard_imports, plus one duplicated source. Oracle: differential — the `pub mod x` projection of X in the joint run equals that of X compiled with only its import closure; one `use super::<y>::{…}` per IMPORTS clause with exactly the mangled symbols in clause order (`*` iff wildcard); module-qualified references render as super::<y>::<T>. Non-trivial: joint and stand-alone runs compiled cleanly and every module block was compared.".into()
+        "module sets of 2 modules (all 8×8 tagging×extensibility default assignments × all 4 import digraphs) and of 3 modules (pairwise-distinct defaults from a 4-palette × all 64 import digraphs, cyclic included; thorough also 4 modules on a ring/star/complete graph); every module has a tagged SEQUENCE, CHOICE, ENUMERATED, a type and a value, and uses each imported type as component type and each imported value as constraint endpoint; for every set: every non-empty subset closed under `imports from`, in every order, handed to one Compiler as one literal per module (and once as a single concatenated literal), with and without default_wildcard_imports, plus one duplicated source. Oracle: differential — the `pub mod x` projection of X in the joint run equals that of X compiled with only its import closure; one `use super::<y>::{…}` per IMPORTS clause with exactly the mangled symbols in clause order (`*` iff wildcard); module-qualified references render as super::<y>::<T>, also when they close a type cycle across two modules and are boxed. Non-trivial: joint and stand-alone runs compiled cleanly and every module block was compared.".into()
     }
     fn enumerate(&self, tier: Tier, _seed: u64) -> Vec<Case> {
         let tags = ["", "EXPLICIT", "IMPLICIT", "AUTOMATIC"];
@@ -380,6 +388,35 @@ impl Prop for C12 {
                 }
             } else {
                 discs.push(Disc::new("module|missing-struct".to_string(), format!("S{} not found\n{jg}", m.name)));
+            }
+            // the qualified, possibly recursive reference
+            if m.qualified {
+                if let Some(j) = m.imports.first() {
+                    let y = &c.mods[*j];
+                    let cyclic = y.qualified && y.imports.first() == Some(i);
+                    let path = format!("super::{}::{}", snake(&y.name), title(&format!("R{}", y.name)));
+                    // on a cycle one of the two references has to be boxed (which one is the compiler's choice); both keep the path
+                    let plain = format!("Option<{path}>");
+                    let boxed = format!("Option<Box<{path}>>");
+                    let back_of = |mp: &ModProj, name: &str| -> Option<String> {
+                        match mp.find(&title(&format!("R{name}"))) {
+                            Some(Item::Struct { fields, .. }) => fields.iter().find(|f| f.name == "back").map(|f| f.ty.clone()),
+                            _ => None,
+                        }
+                    };
+                    let got = back_of(jm, &m.name);
+                    let ok = got.as_deref() == Some(plain.as_str()) || (cyclic && got.as_deref() == Some(boxed.as_str()));
+                    if !ok {
+                        discs.push(Disc::new(format!("module|reference-rendering|qualified=true|recursive={cyclic}"), format!("module {} field back: expected type {plain}{} got {got:?}\n{src_dump}\n--- generated ---\n{jg}", m.name, if cyclic { format!(" or {boxed}") } else { String::new() })));
+                    }
+                    if cyclic && i < j {
+                        let other = jp.module(&snake(&y.name)).and_then(|mp| back_of(mp, &y.name));
+                        let any_box = got.as_deref().map_or(false, |t| t.contains("Box<")) || other.as_deref().map_or(false, |t| t.contains("Box<"));
+                        if !any_box && other.is_some() {
+                            discs.push(Disc::new("module|reference-rendering|qualified=true|cycle-unbroken".to_string(), format!("neither {got:?} nor {other:?} is boxed\n{src_dump}")));
+                        }
+                    }
+                }
             }
         }
         CaseResult { discs, nontrivial: true, outcome: format!("cmp:n{}:{}", c.order.len(), if dup { "dup" } else { "set" }), skipped: None }
